@@ -206,6 +206,24 @@ def run(ctx, prog):
             ok = bool(alts) and all(a[0] == 'call' and re.search(r'TieredEngine::batch_delete(_by_metadata_filter)?$', a[1]) for a in alts)
         ctx.inst('C14.R3', 'rpc batch_delete', 'decrement by the engine-reported count', ok, 'decrement argument: %s' % r[:260])
 
+    # the count BatchDelete decrements by is a count of DISTINCT live ids: the engine counts over a sorted, de-duplicated copy of the request's ids
+    # (a repeated id of one live document must free one slot, not two) and deletes that same list
+    tbd = ctx.body('C14.R3', 'TieredEngine::batch_delete')
+    if tbd is not None:
+        tv = flow.Origin(tbd, stop_at_vars=True)
+        cnt = [c for c in tbd.calls if c.callee and re.search(r'Iterator>?::count$', c.callee)]
+        src = None
+        if cnt:
+            m_ = re.match(r'^Iterator::filter\(slice::iter\((var:\w+)\), closure:', flow.render(tv.of_operand(cnt[0].args[0], 0, frozenset({-1}))))
+            src = m_.group(1) if m_ else None
+        srt = [c for c in tbd.calls if c.callee and re.search(r'slice::sort(_unstable)?$', flow.short(c.callee)) and src and flow.render(tv.of_operand(c.args[0], 0, frozenset({-1}))) == src]
+        ddp = [c for c in tbd.calls if c.callee and c.callee.endswith('Vec::dedup') and src and flow.render(tv.of_operand(c.args[0], 0, frozenset({-1}))) == src]
+        dels = [c for c in tbd.calls if c.callee and re.search(r'(HnswBackend|HotTier)::batch_delete$', c.callee)]
+        same_list = bool(dels) and all(flow.render(tv.of_operand(c.args[1], 0, frozenset({-1}))) == src for c in dels)
+        ret = flow.render(flow.Origin(tbd).of_local(0))
+        ok = bool(cnt) and src is not None and bool(srt) and bool(ddp) and tbd.dominates(srt[0].bb, ddp[0].bb) and tbd.dominates(ddp[0].bb, cnt[0].bb) and same_list and 'Iterator>::count(' in ret
+        ctx.inst('C14.R3', tbd.short, 'the reported count is taken over a sorted, de-duplicated id list, which is also what both tiers delete', ok,
+                 'count over %s; sort ≺ dedup ≺ count: %s; tiers delete the same list: %s' % (src, bool(srt) and bool(ddp), same_list))
     ctx.rule('C14.R4', 'the start-up recount of every tenant (ids_for_metadata_filter) completes before the gRPC service is added to the server')
     m = server.main_body(ctx, 'C14.R4', 'TieredEngine::recover')
     fam = prog.family(m)
